@@ -444,6 +444,27 @@ def f(ctx):
             ctx.ob("an exception is set only when the event carries no message", guarded_by(cfg, nid, "%s.message is not None" % ev, False) or guarded_by(cfg, nid, "%s.exception is not None" % ev, True), fi, s)
 
 
+def j_forward(ctx):
+    """MessageManager.dispatch_error hands every reported error on to the token manager (for the same remote),
+    whatever the state of the exchange tables -- except after shutdown."""
+    fi = ctx.prog.func("messagemanager.MessageManager.dispatch_error")
+    p = params(fi)
+    cfg = cfg_of(fi)
+    fw = [c for c, b in find("self.token_manager.dispatch_error($e, $r)", fi.node) if isinstance(b["e"], ast.Name) and b["e"].id == p[0] and isinstance(b["r"], ast.Name) and b["r"].id == p[1]]
+    ctx.ob("MessageManager.dispatch_error forwards the error and the remote to the token manager", len(fw) >= 1, fi, fi.node, construct="MessageManager.dispatch_error: forward to the token manager")
+    if not fw:
+        return
+    # the only way past the forward is the retired-table (shutdown) guard
+    shut = {n.id for n in cfg.nodes if (n.kind == "T" and match("self._active_exchanges is None", n.ast) is not None) or (n.kind == "F" and match("self._active_exchanges is not None", n.ast) is not None)}
+    ok = cfg.must_pass(cfg.entry, {cfg.loc1(c) for c in fw} | shut)
+    ctx.ob("every reported transport error reaches the token manager (requests without an open exchange -- NON, separate response pending, observations -- fail too)", ok, fi, fw[0])
+
+
+@R.clause("C02.j", "a transport error reported for a remote always reaches the token manager")
+def j(ctx):
+    j_forward(ctx)
+
+
 @R.clause("C02.i", "requests queued behind an exchange complete too: the backlog invariant and 'none forgotten' of the message layer (shared with C14.a/C14.f)")
 def i_shared(ctx):
     """A request whose CON is held back (NSTART=1) completes only if the message layer keeps the invariant
@@ -487,7 +508,36 @@ def h(ctx):
         ctx.ob("the projection keeps address and port (indices 0 and 1)", keeps01(b["s"]), eq, req[0], detail="slice %s" % ast.unparse(b["s"]))
 
 
+@R.clause("C02.h", "sibling sweep: every endpoint-address class in the transports that defines __eq__ or __hash__ defines both over the same projection", tier="thorough")
+def h_thorough(ctx):
+    n = 0
+    for ci in ctx.prog.classes.values():
+        if not ci.module.name.startswith("aiocoap.transports"):
+            continue
+        has_eq, has_hash = "__eq__" in ci.methods, "__hash__" in ci.methods
+        if not (has_eq or has_hash):
+            continue
+        n += 1
+        if not ctx.ob("%s defines both __eq__ and __hash__" % ci.qn.split(".")[-1], has_eq and has_hash, ci.methods.get("__eq__") or ci.methods.get("__hash__"), (ci.methods.get("__eq__") or ci.methods.get("__hash__")).node, construct="class %s: __eq__/__hash__" % ci.qn.split(".")[-1]):
+            continue
+        eq, hs = ci.methods["__eq__"], ci.methods["__hash__"]
+        other = params(eq)[0]
+        re_ = [x for x in walk_no_nested(eq.node) if isinstance(x, ast.Return)]
+        rh = [x for x in walk_no_nested(hs.node) if isinstance(x, ast.Return)]
+        ok = False
+        if len(re_) == 1 and len(rh) == 1:
+            hb = match("hash($p)", rh[0].value)
+            if hb is not None and isinstance(re_[0].value, ast.Compare) and len(re_[0].value.ops) == 1 and isinstance(re_[0].value.ops[0], ast.Eq):
+                l, r = re_[0].value.left, re_[0].value.comparators[0]
+                proj = dump(hb["p"])
+                swap = lambda e: dump(e).replace("Name(id=%r)" % other, "Name(id='self')")
+                ok = {dump(l), swap(r)} == {proj} or {swap(l), dump(r)} == {proj}
+        ctx.ob("%s: __eq__ compares exactly what __hash__ hashes" % ci.qn.split(".")[-1], ok, eq, re_[0] if re_ else eq.node)
+    ctx.floor("endpoint-address classes with identity methods", n, 2)
+
+
 F_TM = "aiocoap/tokenmanager.py"
+R.seed("C02.j", "aiocoap/messagemanager.py", "        self.log.debug(\"Incoming error %s from %r\", error, remote)\n", "        self.log.debug(\"Incoming error %s from %r\", error, remote)\n        if remote not in self._backlogs:\n            return\n", "errors for remotes without an open exchange are dropped: NON requests and observations never fail")
 R.seed("C02.i", "aiocoap/messagemanager.py", "            del self._backlogs[message.remote]\n            self.token_manager.dispatch_error(", "            self.token_manager.dispatch_error(", "stale backlog entry after a timeout: the next request to that remote never completes with a library error")
 R.seed("C02.a", F_TM, "            key = (msg.token, msg.remote)\n", "            key = (msg.token, None)\n", "remote dropped on the unicast arm")
 R.seed("C02.a", F_TM, "        key = (response.token, response.remote)\n        if key not in self.outgoing_requests:", "        key = (response.token, None)\n        if key not in self.outgoing_requests:", "lookup ignores the remote")
